@@ -292,7 +292,7 @@ func init() {
 		},
 		Subs: []h.Sub{
 			{
-				Name: "lines-and-points", Count: h.Fixed(3000, 300000),
+				Name: "lines-and-points", Count: h.Fixed(3000, 1500000),
 				Run: func(c *h.Ctx, idx uint64, r *h.Rand) {
 					z := uint(idx % 23)
 					zoom := maptile.Zoom(z)
@@ -365,7 +365,7 @@ func init() {
 				},
 			},
 			{
-				Name: "polygons", Count: h.Fixed(3000, 300000),
+				Name: "polygons", Count: h.Fixed(3000, 1500000),
 				Run: func(c *h.Ctx, idx uint64, r *h.Rand) {
 					z := uint(idx % 23)
 					zoom := maptile.Zoom(z)
@@ -498,7 +498,7 @@ func init() {
 				},
 			},
 			{
-				Name: "merge-up", Count: h.Fixed(3000, 200000),
+				Name: "merge-up", Count: h.Fixed(3000, 1500000),
 				Run: func(c *h.Ctx, idx uint64, r *h.Rand) {
 					zc := uint(r.Range(1, 12))
 					zoom := maptile.Zoom(zc)
